@@ -104,9 +104,34 @@ func genC02(w *World, res *CheckResult) {
 	}
 	ops := []struct{ op, helper string }{{"+", "add"}, {"-", "subtract"}, {"*", "multiply"}, {"/", "divide"}, {"%", "modulo"}, {"**", "exponent"}}
 	iface := types.NewInterfaceType(nil, nil)
-	for _, lt := range foldLitTypes(w) {
+	lts := foldLitTypes(w)
+	type litPair struct{ lt, rt litType }
+	var pairs []litPair
+	for _, lt := range lts {
+		pairs = append(pairs, litPair{lt, lt})
+	}
+	// literals of different static types under one operation: the checker retypes the integer literals of an
+	// argument to the parameter type but does not descend into % (whose folded result stays int), so a literal of
+	// any numeric type can meet an int literal under + - * /
+	for _, lt := range lts {
+		if lt.name != "int" {
+			for _, it := range lts {
+				if it.name == "int" {
+					pairs = append(pairs, litPair{lt, it}, litPair{it, lt})
+				}
+			}
+		}
+	}
+	for _, pr := range pairs {
+		lt, rt := pr.lt, pr.rt
 		for _, op := range ops {
 			cell := fmt.Sprintf("optimizer.fold[%s,%s]", op.op, lt.name)
+			if rt.name != lt.name {
+				if op.op == "%" || op.op == "**" {
+					continue
+				}
+				cell = fmt.Sprintf("optimizer.fold[%s,%s|%s]", op.op, lt.name, rt.name)
+			}
 			helper := w.Func("vm." + op.helper)
 			if helper == nil {
 				res.Obls = append(res.Obls, missingObl(cell+"/exists", "helper not found"))
@@ -116,7 +141,7 @@ func genC02(w *World, res *CheckResult) {
 			a, b := Fresh("a", SBV(64)), Fresh("b", SBV(64))
 			// --- unoptimized: helper(push(a), push(b))
 			pa, ok1 := pushedInteger(w, a, lt.code)
-			pb, ok2 := pushedInteger(w, b, lt.code)
+			pb, ok2 := pushedInteger(w, b, rt.code)
 			if !ok1 || !ok2 {
 				res.Obls = append(res.Obls, missingObl(cell+"/post:transparent", "compiler.IntegerNode did not produce a single push"))
 				continue
@@ -147,7 +172,7 @@ func genC02(w *World, res *CheckResult) {
 			st.Store(LocField(ln, lay.off("IntegerNode", "Value")), a)
 			st.Store(LocField(rn, lay.off("IntegerNode", "Value")), b)
 			st.Store(LocField(ln, 2), lt.code)
-			st.Store(LocField(rn, 2), lt.code)
+			st.Store(LocField(rn, 2), rt.code)
 			// the checker retypes the literals under + - * / of an argument (setTypeForIntegers) but leaves the
 			// operation node's own static type as first computed: it is arbitrary here. % and ** are never
 			// retyped: their node keeps the type computed from the literals.
